@@ -33,6 +33,13 @@ def testSchemas : List SD := [
   .mk "TDur" 0x420001 [.mk "D" 0x420002 true false false (.prim .interval), .mk "O" 0x420003 false false false (.prim .interval),
       .mk "L" 0x420004 false false false (.prim .long), .mk "T" 0x420005 false false false (.prim .time)],
   .mk "TDyn" 0x420001 [.mk "V" 0x420002 true false false (.dyn 0 [])],
+  -- a DynamicDispatch target whose BuildFieldValue misbehaves for some selectors (1: nil; 2: struct by value; 3: *int32;
+  -- 4: time.Duration; 5: *Name (fine); 6: int32 (fine); 7: pointer to a struct with bad annotations)
+  .mk "TDisp" 0x420001 [.mk "Sel" 0x42005c true false false (.prim .enum),
+      .mk "V" 0x420079 true false false (.dyn 0 [
+        .mk (.enum 2) false (.struct KmipGen.sd_Name), .mk (.enum 3) true (.prim .int), .mk (.enum 4) false (.prim .interval),
+        .mk (.enum 5) true (.struct KmipGen.sd_Name), .mk (.enum 6) false (.prim .int),
+        .mk (.enum 7) true (.struct (.mk "TBadType" 0x420001 [.mk "A" 0x420002 true false false .unsupported]))])],
   .mk "TSlices" 0x420001 [.mk "A" 0x420002 true true false (.prim .int), .mk "B" 0x420003 false true false (.prim .bytes),
       .mk "C" 0x420004 false true false (.prim .text)]
 ]
